@@ -189,7 +189,7 @@ def rule_fee(ctx):
         else:
             accept.append(sorted(conds + [canon(v2)]))
     flat = sorted(set(c for a in accept for c in a))
-    need = ['self.in_count.value == 1', '(unwrap(first(self.inputs)).outpoint.index == 4294967295)']
+    need = ['self.in_count.value == 1', '(first(self.inputs)?.outpoint.index == 4294967295)']
     has_zero = any('outpoint.txid' in c and ('eq(' in c or '==' in c) for c in flat)
     ctx.check('fee', 'is_coinbase-definition', len(accept) == 1 and all(nq in flat for nq in need) and has_zero, ic,
               'is_coinbase accepts iff %s' % flat)
@@ -294,7 +294,7 @@ def rule_report(ctx):
     ctx.check('report', 'type-line', len(per) == 1 and per[0][1] == [k + '.0', k + '.1', '(((%s.1 as f64) / (self.n_tx_outputs as f64)) * const<100.0>)' % k],
               per[0][2].cs if per else tt, 'type line <- %s' % (per[0][1] if per else '?'))
     first = [x for x in lines if 'first seen' in x[0]]
-    g = 'unwrap(get(self.tx_first_occs, %s.0))' % k
+    g = 'get(self.tx_first_occs, %s.0)?' % k
     ctx.check('report', 'first-occurrence-line', len(first) == 1 and first[0][1] == [g + '.0', g + '.1'], first[0][2].cs if first else tt,
               'first-seen line <- %s' % (first[0][1] if first else '?'))
 
@@ -319,7 +319,7 @@ def rule_mean(ctx):
                 ctx.touch(*cl)
     ctx.check('mean', 'sum-over-len', ok, gm, 'get_mean(s) = %s' % r)
     # 0.0 exactly on the empty edge
-    for d in gm.defs().get(0, []):
+    for d in gm.ret_defs():
         if d[0] == 'assign':
             v = canon(gm.rvalue_expr(d[3]), keep_casts=False)
             g = util.guards_at(gm, d[1])
